@@ -88,7 +88,7 @@ func TestScore(t *testing.T) {
 			return scoreCase{h.BytesN(t, "msg", n)}
 		},
 		Check: checkScore, Require: []string{"score/z=0", "score/z=1", "score/z=2"},
-		Rule:  "random messages of 8..200 bytes: Score = nearest float64 to 3^z/len within 2 ulp, z from the independent BLAKE2b -> b1t6 -> Curl-P-81 chain; non-trivial = z >= 1; distinct by message",
+		Rule: "random messages of 8..200 bytes: Score = nearest float64 to 3^z/len within 2 ulp, z from the independent BLAKE2b -> b1t6 -> Curl-P-81 chain; non-trivial = z >= 1; distinct by message",
 	})
 }
 
@@ -140,7 +140,7 @@ func checkMine(c mineCase) (h.Info, error) {
 		return h.Info{}, fmt.Errorf("PRECONDITION: target too expensive for the harness")
 	}
 	info := h.Info{Class: "mine/" + c.Class, NT: c.Class != "random"}
-	ctx, cancel := context.WithTimeout(context.Background(), 120*time.Second)
+	ctx, cancel := context.WithTimeout(context.Background(), 60*time.Second)
 	defer cancel()
 	data := append([]byte{}, c.Data...)
 	// Worker objects are reused from case to case (no state may survive a call)
@@ -163,9 +163,9 @@ func checkMine(c mineCase) (h.Info, error) {
 	select {
 	case r := <-ch:
 		nonce, err = r.nonce, r.err
-	case <-time.After(180 * time.Second):
+	case <-time.After(100 * time.Second):
 		// termination is property C13's statement, not C11's: inconclusive here
-		h.InfraAndExit("C11", "mine", c, fmt.Sprintf("Mine(data=%x, target=%v, workers=%d) did not return within 180 s (60 s after its context expired); C11 cannot be decided, see C13", []byte(c.Data), target, c.Workers))
+		h.InfraAndExit("C11", "mine", c, fmt.Sprintf("Mine(data=%x, target=%v, workers=%d) did not return within 100 s (40 s after its context expired); C11 cannot be decided, see C13", []byte(c.Data), target, c.Workers))
 	}
 	if err != nil {
 		return info, fmt.Errorf("Mine(data=%x, target=%v [%s], workers=%d): %v", []byte(c.Data), target, c.Class, c.Workers, err)
@@ -395,37 +395,4 @@ func genLow(t *rapid.T) mineCase {
 	o := opts[rapid.IntRange(0, len(opts)-1).Draw(t, "low")]
 	c.Target, c.Class = bitsOf(o.f), o.name
 	return c
-}
-
-func TestMineLowTargets(t *testing.T) {
-	h.Run(t, h.Sub[mineCase]{
-		Prop: "C11", Name: "mine-low-targets-child-process", N: 64,
-		Gen: genLow, Check: checkMineChild,
-		Rule:    "trivially low targets (1/len, 1/(3 len), 1/(9 len), 1/(10 len), just below those, 1e-300, smallest subnormal, 0, -0, -1, -1e300) x data x workers {1,2,4,16}: Mine runs in a child process (the test binary re-executes itself) which must exit 0 and print a nonce whose Score >= target; a crash of the child is the violation; all non-trivial; distinct by case",
-	})
-}
-
-// every low target x workers {1, 16} x two data lengths, complete
-func TestLowTargetGrid(t *testing.T) {
-	h.RunEnum(t, h.Enum[mineCase]{
-		Prop: "C11", Name: "low-target-grid-child-process",
-		Rule: "complete grid: 13 trivially low targets x workers {1, 16} x data lengths {0, 19}, each in a child process",
-		Each: func(yield func(mineCase) bool) {
-			for _, dl := range []int{0, 19} {
-				data := make([]byte, dl)
-				for i := range data {
-					data[i] = byte(i + 1)
-				}
-				for _, w := range []int{1, 16} {
-					for _, o := range lowTargets(float64(dl + 8)) {
-						if !yield(mineCase{Data: data, Workers: w, Target: bitsOf(o.f), Class: o.name}) {
-							return
-						}
-					}
-				}
-			}
-		},
-		Check:   checkMineChild,
-		Require: []string{"child/zero", "child/negative", "child/1/(3len)", "child/subnormal", "child/1e-300"},
-	})
 }
